@@ -16,6 +16,7 @@ from .common import enum_switches, variant_index
 from .facts import op_place, op_const
 
 CRATES = {"gluon_vm"}
+THOROUGH_CONFIGS = ["default", "nodefault"]  # thorough also analyses the default-feature and the no-default-features builds
 EXPR = "gluon_vm::core::Expr"
 
 
